@@ -106,6 +106,14 @@ def mount_stages(ctx, attr=None, with_add=False):
     graph_stage(ctx, "mount", "MC_Mount.tla", cfg, "mount", ["mountmem"], args, workers=8, frontier=True)
     if with_add:
         mountadd_stages(ctx)
+        if ctx.tier != "quick":
+            # beyond C06's quantifier (it does not range over faults): every cross-mount Rename re-run with each primitive call of a
+            # constituent file system failing; what is seen is reported in the notes, never as a verdict
+            graph_stage(ctx, "mount-rename-faults", "MC_Mount.tla", "Mount.quick.cfg", "mount", ["mountfault"], ["--names", "a,ab,b,f", "--depth", "4"], workers=8, frontier=True)
+            info = sorted(set(d["sig"].split(" ", 2)[2] for d in ctx.divs if d["prop"] == "INFO"))
+            ctx.divs = [d for d in ctx.divs if d["prop"] != "INFO"]
+            if info:
+                ctx.notes.append("informational (faults are outside C06): a cross-mount Rename interrupted by a failing primitive call can fail half done: " + "; ".join(info))
 
 
 def mountadd_stages(ctx):
